@@ -143,7 +143,13 @@ void *operator new(std::size_t sz) {
 void *operator new[](std::size_t sz) { return operator new(sz); }
 void operator delete(void *p) noexcept {
     if (!p) return;
-    if (!arena::slot_of(p)) { free(p); return; }
+    if (!arena::slot_of(p)) {
+        // inside a library call every block comes from the arena: anything else is not a heap block
+        // (e.g. an alloca buffer taken for a heap fallback); reported, not handed to free()
+        if (arena::attributed()) { arena::badptr++; return; }
+        free(p);
+        return;
+    }
     if (arena::alloc_marks && vsched::self() && arena::lib_depth > 0) vsched::mark("delete");
     arena::release(p);
 }
@@ -460,9 +466,16 @@ struct World {
     }
 
     void do_teardown() {
-        lib_scope ls;
-        storage.reset();
-        if (buf) buf.reset();
+        // the destructors run as library code (they release the policy's block); the objects themselves
+        // belong to the harness
+        if (A *s = storage.release()) {
+            { lib_scope ls; s->~A(); }
+            ::operator delete(static_cast<void *>(s));
+        }
+        if (buf) {
+            { lib_scope ls; Buf().swap(*buf); }
+            buf.reset();
+        }
         torn = true;
     }
 
@@ -742,6 +755,7 @@ struct World {
             }
             if (!rep.check(k, project(nthreads))) stop = true;
         }
+        fflush(stdout);   // a divergence is on record even if the clean-up of a broken state crashes
         // ---- clean up whatever the scenario left, then: nothing may remain allocated ----
         bool drained = true;
         if (mt) {
